@@ -339,7 +339,7 @@ func (c *ctx) runJob(bin string, job *pt.Job, timeout time.Duration) ([]pt.Line,
 	defer os.Remove(jf)
 	defer os.Remove(of)
 	cmd := exec.Command(bin, "-test.run", "^TestWorker$", "-test.timeout", "0", "-test.count", "1")
-	cmd.Env = append(os.Environ(), "VERIF_JOB="+jf, "VERIF_OUT="+of, "GOMAXPROCS=2")
+	cmd.Env = append(os.Environ(), "VERIF_JOB="+jf, "VERIF_OUT="+of, "GOMAXPROCS=1")
 	var stderr bytes.Buffer
 	cmd.Stdout = &stderr
 	cmd.Stderr = &stderr
